@@ -754,10 +754,3 @@ extern "C" void h_ni_public_empty() { c17_ni(true, false); }
 // sensitive part: every sensitive field set / none set, ANY combination of whitelisted fields on top
 extern "C" void h_ni_sensitive_full() { c17_ni(false, true); }
 extern "C" void h_ni_sensitive_empty() { c17_ni(false, false); }
-
-#ifdef C17_DEBUG
-extern "C" void h_dbg1() { QXmppMessage m; c17_base(m); set_body(m); C17Trees t; c17_serialize(m, t); }
-extern "C" void h_dbg2() { QXmppMessage m; c17_base(m); set_body(m); C17Trees t; c17_serialize(m, t); c17_place(t, SENS, 1, u"body", u""); }
-extern "C" void h_dbg3() { QXmppMessage m; c17_base(m); set_body(m); C17Trees t; c17_serialize(m, t); QXmppMessage r; r.parse(t.pub, QXmpp::ScePublic); }
-extern "C" void h_dbg4() { QXmppMessage m; c17_base(m); set_body(m); C17Trees t; c17_serialize(m, t); QXmppMessage r; r.parse(t.sens, QXmpp::SceSensitive); }
-#endif
